@@ -46,7 +46,7 @@ def gen(tier, rng, harness, driver):
         if l.startswith(("!typ.ok", "typ.ir")):
             lines.append(l)
     for l in pC08.gen("quick", rng, harness)[: (600 if tier == "quick" else 6000)]:
-        if l.startswith(("!num.check", "num.api")):
+        if l.startswith(("!num.check", "num.api", "num.modapi")):
             lines.append(l)
     return lines
 
@@ -55,6 +55,9 @@ nontrivial = pC01.nontrivial
 
 
 def search(ln, a, b, harness, driver):
+    if ln.startswith("num.modapi") and a.startswith("panic"):
+        # a module built through the builder methods cannot be printed: the operation itself is the failing input
+        return {"ops": [ln], "impl": [a], "model": [b]}
     if ln.startswith("cs.type"):
         # the disagreeing operation IS the failing input: the spelled callee type differs from the one LLVM needs (theorem call_site_denotes_callee)
         return {"ops": [ln], "impl": [a], "model": [b]}
